@@ -1,11 +1,14 @@
 /-
-  C03 — property theorems (and non-vacuity examples) ONLY.  Helper lemmas: `Lemmas.lean`, `ParseLemmas.lean`, `FuelLemmas.lean`, `TreeLemmas.lean`, `NumLemmas.lean`, `SemLemmas.lean`, `SemMain.lean`, `ShellLemmas.lean`.
+  C03 — property theorems (and non-vacuity examples) ONLY.  Helper lemmas: `Lemmas.lean`, `ParseLemmas.lean`, `FuelLemmas.lean`, `TreeLemmas.lean`, `NumLemmas.lean`, `SemLemmas.lean`, `SemMain.lean`, `ShellLemmas.lean`, `RoundTrip.lean`, `Render.lean`, `Spell.lean`.
 -/
 import YashModel.Arith.FuelLemmas
 import YashModel.Arith.TreeLemmas
 import YashModel.Arith.NumLemmas
 import YashModel.Arith.SemMain
 import YashModel.Arith.ShellLemmas
+import YashModel.Arith.RoundTrip
+import YashModel.Arith.Render
+import YashModel.Arith.Spell
 namespace YashModel.Arith
 open YashModel.Generated.ArithTables
 
@@ -339,6 +342,54 @@ theorem model_computes_C_value (e : Spec.Expr) (env : Env) (hs : Spec.inScope e 
     | none => ∃ err, evalValue (rpn e) env = .error err :=
   evalValue_rpn e env hs hl
 
+/-- ☆ `parse_render`: write a tree as tokens with exactly the parentheses the C grammar needs (`render`,
+    driven by the GENERATED precedence/associativity tables: left operand in parentheses when its level is
+    lower, right operand when its level is not higher, assignment and `?:` grouping to the right, unary and
+    postfix operands by level) — the precedence-climbing parser reads it back as the reverse-Polish vector of
+    that same tree, for every tree.  This is the statement that the parser implements C precedence and
+    associativity. -/
+theorem parse_render (e : Spec.Expr) (f : Nat) (hf : 2 * (render e).length + 2 ≤ f) :
+    parseToks f (render e) = .ok (rpn e) :=
+  parseToks_render e f hf
+
+/-- ☆ … together with `model_computes_C_value`: the tokens of any tree on which C defines a value are parsed
+    and evaluated to exactly that value (and to an error exactly when there is none). -/
+theorem rendered_expression_gets_its_C_value (e : Spec.Expr) (env : Env) (hs : Spec.inScope e = true)
+    (hl : litsInRange e) :
+    ∃ ast, parseToks (2 * (render e).length + 2) (render e) = .ok ast ∧
+      match Spec.evalExact e env with
+      | some (v, env') => evalValue ast env = .ok (v, env')
+      | none => ∃ err, evalValue ast env = .error err :=
+  ⟨rpn e, parse_render e _ (Nat.le_refl _), model_computes_C_value e env hs hl⟩
+
+/-- ☆ the tokenizer reads a token list written out (operators by their lexeme of the generated `OPERATORS`,
+    non-negative constants in decimal, identifiers; one blank after each) back as that list -/
+theorem tokenize_spelling (toks : List Tok) (hok : ∀ t ∈ toks, TokOK t) (f : Nat)
+    (hf : (spell toks).length < f) : tokenize f (spell toks) = toks :=
+  tokenize_spell toks hok f hf
+
+/-- ☆ from characters to the C value: for every tree on which C defines a value (constants non-negative
+    i64, identifiers as names), `yash_arith::eval` on its text — minimal parentheses, one blank after every
+    token — returns exactly the Spec's value and final variables, and an evaluation error exactly when the
+    Spec has none.  (tokenizer + parser + evaluator together; no step is left to testing for this spelling.) -/
+theorem text_gets_its_C_value (e : Spec.Expr) (env : Env) (hs : Spec.inScope e = true) (h : leavesOK e) :
+    match Spec.evalExact e env with
+    | some (v, env') => evalStr (spell (render e)) env = .value v env'
+    | none => ∃ err, evalStr (spell (render e)) env = .evalError err :=
+  evalStr_spell_render e env hs h
+
+/-- `x = 2 + 3 * b`: the hypotheses hold and this is its text -/
+example :
+    let e : Spec.Expr := .bin .Assign (.var ['x']) (.bin .Add (.num 2) (.bin .Multiply (.num 3) (.var ['b'])))
+    spell (render e) = "x = 2 + 3 * b ".toList ∧ Spec.inScope e = true := by
+  refine ⟨by decide +kernel, by decide⟩
+
+/-- `a - (b - c) * -d++` needs one pair of parentheses; `tokenize` of the text gives `render` of the tree -/
+example :
+    let e : Spec.Expr := .bin .Subtract (.var ['a'])
+      (.bin .Multiply (.bin .Subtract (.var ['b']) (.var ['c'])) (.pre .NumericNegation (.post .Increment (.var ['d']))))
+    render e = tokenize 100 "a - (b - c) * -d++".toList := by decide +kernel
+
 /-- the hypotheses are met by `x = 2 + 3 * b` (and `rpn` of it is what the parser produces) -/
 example :
     let e : Spec.Expr := .bin .Assign (.var ['x']) (.bin .Add (.num 2) (.bin .Multiply (.num 3) (.var ['b'])))
@@ -353,6 +404,55 @@ example :
     Spec.inScope e = false ∧ evalValue (rpn e) [] = .ok (10, [(['x'], ['5'])]) ∧
     Spec.evalExact e [] = some (5, [(['x'], ['5'])]) := by
   refine ⟨by decide, by decide +kernel, by decide +kernel⟩
+
+/-- ☆ "assignment operators update variables": the decimal text an assignment stores (`Value::to_string`)
+    is read back by `parse_integer` as exactly the assigned value, for every i64 value … -/
+theorem assign_roundtrip (v : Int) (hv : InRange v) : parseInteger (showInt v) = some v := by
+  rw [parseInteger_eq_spec]; exact signedConstValue_showInt v hv
+
+/-- … so after `assign(name, v)` the variable expands to `v` -/
+theorem assign_then_read (env : Env) (x : Name) (v : Int) (hv : InRange v) :
+    (assign x v env).bind (fun p => expandVariable x p.2) = .ok v := by
+  simp only [assign, Res.bind, expandVariable, get_set_self, assign_roundtrip v hv, Res.ofOption]
+
+example : showInt (-9223372036854775808) = "-9223372036854775808".toList ∧ showInt 0 = ['0'] ∧
+    InRange (-9223372036854775808) := by
+  refine ⟨by decide +kernel, by decide +kernel, by decide⟩
+
+/-! ## the `portable` configuration (`ast/portability.rs`) -/
+
+/-- the portability check looks at the whole vector: it fails exactly when `++` or `--` occurs anywhere in
+    the expression tree — also in an operand that `||`, `&&` or `?:` would not evaluate -/
+theorem portable_rejects_exactly_incdec (e : Spec.Expr) : (rpn e).any isIncDec = Spec.hasIncDec e := by
+  induction e with
+  | num v => rfl
+  | var x => rfl
+  | pre op e ih => cases op <;> simp [rpn, isIncDec, Spec.hasIncDec, ih]
+  | post op e ih => simp [rpn, isIncDec, Spec.hasIncDec]
+  | bin op l r ihl ihr => simp [rpn, isIncDec, Spec.hasIncDec, ihl, ihr]
+  | cond c t e ihc iht ihe => simp [rpn, isIncDec, Spec.hasIncDec, ihc, iht, ihe, Bool.or_assoc]
+
+/-- … and the option changes nothing else: a `PortabilityError` exactly when the parsed vector has such a
+    node, otherwise the outcome of the default configuration (syntax errors come first, as in the code) -/
+theorem portable_only_adds_the_check (src : List Char) (env : Env) :
+    (evalStrPortable src env = none ↔ ∃ ast, parse src = .ok ast ∧ ast.any isIncDec = true) ∧
+    (evalStrPortable src env ≠ none → evalStrPortable src env = some (evalStr src env)) := by
+  unfold evalStrPortable evalStr
+  cases hp : parse src with
+  | error e => simp
+  | ok ast =>
+    by_cases h : ast.any isIncDec = true
+    · simp only [h, if_true, true_iff, ne_eq, not_true_eq_false, false_implies, and_true]
+      exact ⟨ast, rfl, h⟩
+    · simp only [h, if_false, reduceCtorEq, false_iff, ne_eq, not_false_eq_true, true_implies, and_true]
+      rintro ⟨a, ha, hh⟩
+      injection ha with ha
+      subst ha
+      exact h hh
+
+example : evalStrPortable "0 && n++".toList [] = none ∧
+    evalStrPortable "n + 1".toList [] = some (.value 1 []) := by
+  refine ⟨by decide +kernel, by decide +kernel⟩
 
 /-! ## the glue to the shell's variable store (`Shell.lean`; yash-semantics `VarEnv`) -/
 
